@@ -226,7 +226,7 @@ func BuildMatrix(sp RunnerSpec, s int) [][]Cell {
 		for f := 0; f < fails; f++ {
 			q := 0.0005 + 0.004*r.Float64() // P = Q < 0.01 (chi-square) or P = 2Q < 0.01 (two-sided)
 			b := 0
-			if twoSided[item] && f%2 == 1 {
+			if twoSided[item] && (f%2 == 1 || d.FailHigh) {
 				q = 1 - q
 				b = 9
 			}
@@ -281,6 +281,9 @@ func BuildMatrix(sp RunnerSpec, s int) [][]Cell {
 				q := r.Float64()
 				if r.Intn(1000) < sp.Random {
 					q = 0.0005 + 0.004*r.Float64()
+					if twoSided[item] && r.Intn(2) == 0 {
+						q = 1 - q
+					}
 				} else if mkCell(item, q).P < alpha {
 					q = 0.5
 				}
